@@ -9,6 +9,9 @@ HERE = os.path.dirname(os.path.dirname(os.path.abspath(__file__)))
 ALL = ['C%02d' % i for i in range(1, 21)]
 
 # property -> (design section, text of the level claimed, note / trusted base, technique)
+ENG_NOTE = 'Exhaustive only within the bounds of the MC_Engine families (tables of <= 2-4 records over 2-3 cell values, select lists of <= 2 items from the RbqlValues vocabulary); arbitrary user expressions are outside the vocabulary. TLC, the JSON bridge, the renderer (abstract query -> RBQL text) and the projections are trusted.'
+ENG_TECH = 'TLA+ engine spec (operational machine vs declarative Ref) model-checked by TLC; exhaustive spec->code replay of TLC-emitted cases; TLC monitors over recorded events'
+
 CLAIMED = {
     'C11': ('5 C11, 3.6',
             'TLC proves, for every line within the bound over {quote, delimiter chars, space, other}, that the scanner automaton (CsvScanner) computes the '
@@ -38,6 +41,13 @@ CLAIMED = {
     'C07': ('5 C07, 3.2',
             'Same machinery over header families: select lists of 1..2 items over {aN, a[N], a.name, a["name"], NR, expression, *, a.*, b.*, AS aliases, UNNEST} x {DISTINCT, DISTINCT COUNT, TOP} x {header, no header} x {join, no join}, UPDATE and EXCEPT; HeaderRef states the naming rules; invariant HeaderWidth; replay compares the header handed to the writer (names and width).',
             'Exhaustive only within the bounds of the MC_Engine families (tables of <= 2-4 records over 2-3 cell values, select lists of <= 2 items from the RbqlValues vocabulary); arbitrary user expressions are outside the vocabulary. TLC, the JSON bridge, the renderer (abstract query -> RBQL text) and the projections are trusted; the renderer varies interchangeable spellings.' + ' Column names are identifier-like here (awkward names belong to C09).', 'TLA+ engine spec (operational machine vs declarative Ref) model-checked by TLC; exhaustive spec->code replay of TLC-emitted cases; TLC monitors over recorded events'),
+
+    'C14': ('5 C14, 3.2',
+            'Same machinery over error families: a value-dependent raising ("poison") expression placed in every clause (SELECT item, WHERE, ORDER BY key, GROUP BY key, aggregate argument, UPDATE rhs, UNNEST list), UPDATE target / JOIN key beyond NF, strict-join and multi-match UPDATE errors, over tables holding the poison at every position; mistakes in the query text (= in WHERE, two SELECTs, bad LIMIT, unknown EXCEPT / UPDATE field, ORDER BY in UPDATE, two UNNESTs, aggregates under ORDER BY / DISTINCT, star + alias without header, EXCEPT + JOIN) and inconsistent input (column-name list length, join header mismatch). Ref gives class, first offending record in processing order and field; replay compares class (exception_to_error_info), record number and field parsed from the message; a TLC monitor checks that parsing errors precede any write; field-count warning numbers compared for header-less full scans of A and B.',
+            ENG_NOTE + ' Warning kinds None-in-output / delimiter-in-simple-output / BOM / malformed quoting are decided with the CSV specifications (C10, C12 evidence), not here.', ENG_TECH),
+    'C15': ('5 C15, 3.2, 3.8, 3.11',
+            '(a) RbqlEngine with a fault plan (the leaf writer refuses from call k, k = every index) over 9 query shapes: TLC proves prefix output, the writer-protocol monitor (set_header once and first, no write after FALSE, finish exactly once iff success) and promptness (no pull after a refusal); replayed with a user writer returning False at k; (b) the real CSVWriter over a stream raising BrokenPipeError at every stream.write index: no exception, emitted text = prefix of the fault-free text, monitors judged by TLC; (c) Utf8.tla (incremental decoder = declarative decoder under every partition) model-checked, every byte string within the bound delivered to the real reader under every partition x chunk sizes, verdict by TLC (BadByteTrace: invalid => IO-handling error, valid => RefRead of the decoded text); (d) Frontends.tla (query_csv life-cycle, every raising point) model-checked for "terminated => no open handle", 26 query_csv scenarios recorded through a replaced rbql_csv.open and judged by TLC (FrontendTrace), /proc/self/fd as second witness.',
+            'Bounds: tables <= 2-3 records, byte strings <= 3-4 bytes over 15 byte values; a broken pipe is an exception-raising stream, not an OS pipe.', 'TLA+ engine spec with fault plan + UTF-8 decoder machine + front-end life-cycle machine model-checked by TLC; fault-point enumeration replayed into the code; TLC trace validation'),
 }
 
 PENDING_REASON = 'check not built yet in this session (specification work in progress; see DESIGN.md section 5 for the plan)'
